@@ -8,6 +8,8 @@ package c20
 import (
 	"bytes"
 	"fmt"
+	"github.com/saucelabs/forwarder"
+	"strings"
 	"testing"
 	"time"
 
@@ -103,7 +105,20 @@ func scenario(x *explore.X) {
 	// graceful shutdown requested while the transfer is under way (listeners are closed, exchanges and
 	// tunnels in flight are allowed to finish): the limits keep applying to them
 	shutdownMid := x.ChooseFree("graceful-shutdown-mid-transfer", 2) == 1
-	w, err := world.Start(world.Options{ReadLimit: r, WriteLimit: wl, ShutdownTimeout: 48 * time.Hour})
+	// client-side read/write time limits (2 s / 3 s) on a throttled transfer: the transfer may be cut off by them,
+	// but what does get through still obeys the limit (so completeness is not demanded in this mode)
+	withTimeouts := x.ChooseFree("client-side-timeouts", 2) == 1
+	if withTimeouts && (kind == "tunnel" || shutdownMid) {
+		x.Outcome("inadmissible")
+		return
+	}
+	opts := world.Options{ReadLimit: r, WriteLimit: wl, ShutdownTimeout: 48 * time.Hour}
+	if withTimeouts {
+		opts.Tweak = func(cfg *forwarder.HTTPProxyConfig, _ *forwarder.HTTPTransportConfig) {
+			cfg.ReadTimeout, cfg.WriteTimeout = 2*time.Second, 3*time.Second
+		}
+	}
+	w, err := world.Start(opts)
 	if err != nil {
 		x.Failf("harness/start", "%v", err)
 		return
@@ -129,11 +144,17 @@ func scenario(x *explore.X) {
 			}
 		}
 	}
+	if withTimeouts {
+		horizon = time.Minute
+	}
 	down := h1x.Pattern(size, 3)
 	up := h1x.Pattern(size, 8)
 	what := fmt.Sprintf("read-limit=%d write-limit=%d %s x%d", r, wl, kind, nconn)
 	if shutdownMid {
 		what += " (graceful shutdown requested after the second sample)"
+	}
+	if withTimeouts {
+		what += " (read-timeout 2s, write-timeout 3s)"
 	}
 	x.Logf("%s", what)
 	stepFor := func(limit int64) time.Duration {
@@ -171,6 +192,9 @@ func scenario(x *explore.X) {
 		tr := trace(total, int64(nconn)*int64(len(head)+size), stepFor(r), horizon)
 		checkBound(x, what+" [bytes received by clients]", tr, r, nconn)
 		for i, c := range clients {
+			if withTimeouts {
+				break
+			}
 			rs := httpwire.ParseResponses(c.Recv(), []string{"GET"}, false)
 			if len(rs.Msgs) != 1 || !bytes.Equal(rs.Msgs[0].Body, down) {
 				x.Failf("data-altered", "%s: client %d did not receive the origin's %d bytes intact (state %q, msgs %d)", what, i, size, rs.State, len(rs.Msgs))
@@ -191,6 +215,14 @@ func scenario(x *explore.X) {
 		}
 		tr := trace(total, int64(nconn)*int64(len(head)+size), stepFor(wl), horizon)
 		checkBound(x, what+" [bytes accepted from clients]", tr, wl, nconn)
+		if withTimeouts {
+			// (uploads the time limit has cut off never complete; those that did are answered)
+			msgs, conns, _ := org.Next()
+			for i := range msgs {
+				org.Conns[conns[i]].Send([]byte("HTTP/1.1 200 OK\r\nContent-Length: 0\r\n\r\n"))
+			}
+			break
+		}
 		msgs, conns, problem := org.Next()
 		if len(msgs) != nconn {
 			x.Failf("data-altered", "%s: origin received %d complete requests, want %d (%s)", what, len(msgs), nconn, problem)
@@ -265,7 +297,19 @@ func scenario(x *explore.X) {
 		c.Close()
 	}
 	if err := w.Stop(); err != nil {
-		x.Failf("shutdown", "%v", err)
+		m := w.Proxy.VerifMartian()
+		x.Failf("shutdown", "%v (open-connection count %d, registered %d; client sockets: %s)", err, m.VerifOpenConns(), m.VerifTracked(), func() string {
+			var l []string
+			for _, c := range clients {
+				st := c.C.Status()
+				l = append(l, fmt.Sprintf("closed=%v peerClosed=%v reset=%v peerReading=%v proxy-has-read=%d", st.Closed, st.PeerClosed, st.Reset, st.PeerReading, st.PeerRead))
+			}
+			ll := w.Log.Lines()
+			if len(ll) > 25 {
+				ll = ll[len(ll)-25:]
+			}
+			return strings.Join(l, "; ") + "\n  log tail:\n    " + strings.Join(ll, "\n    ")
+		}())
 	}
 	org.Close()
 	tun.Close()
@@ -276,7 +320,7 @@ func scenario(x *explore.X) {
 
 func TestC20(t *testing.T) {
 	s := explore.NewSuite(t, "C20", "model_checking",
-		"(read-limit, write-limit) in {0, 1 MiB/s, 64 MiB/s, 300 MiB/s, 16 KiB/s, 3000 B/s}^2 (the last two are smaller than one relay buffer / one bufio buffer) x transfer {download, upload, CONNECT tunnel both ways} of 12 MiB per connection (burst + 256 KiB with a limit below 1 MiB/s) x {1,2,3} connections sharing the listener x {no shutdown, graceful shutdown requested while the transfer is under way} [full product]; on the virtual clock the receiving side's (time, cumulative bytes) is sampled 64+ times per transfer (states = samples) and the token-bucket bound bytes <= burst + rate x dt + one 64 KiB write per connection is checked between EVERY pair of samples, plus minimum duration, zero virtual time for an unlimited direction, and byte-for-byte identity of the data")
+		"(read-limit, write-limit) in {0, 1 MiB/s, 64 MiB/s, 300 MiB/s, 16 KiB/s, 3000 B/s}^2 (the last two are smaller than one relay buffer / one bufio buffer) x transfer {download, upload, CONNECT tunnel both ways} of 12 MiB per connection (burst + 256 KiB with a limit below 1 MiB/s) x {1,2,3} connections sharing the listener x {no shutdown, graceful shutdown requested while the transfer is under way} x {no client-side time limits, read-timeout 2 s + write-timeout 3 s (bound only)} [full product]; on the virtual clock the receiving side's (time, cumulative bytes) is sampled 64+ times per transfer (states = samples) and the token-bucket bound bytes <= burst + rate x dt + one 64 KiB write per connection is checked between EVERY pair of samples, plus minimum duration, zero virtual time for an unlimited direction, and byte-for-byte identity of the data")
 	s.Assume = []string{"virtual clock of testing/synctest drives golang.org/x/time/rate", "documented slack: the limiter is charged after each write, so one write (<= 64 KiB) per connection may exceed the bucket", "simnet receive buffers are unbounded, so the only throttle is the limiter under test"}
 	s.Add(explore.Scenario{Name: "limits", Remote: true, Run: func(x *explore.X) { world.Run(t, x, func() { scenario(x) }) }})
 	s.Main()
